@@ -97,7 +97,14 @@ func removeAt(s []handle, i int) []handle {
 }
 
 // check compares the real list with the model.
-func check(l *xlist.List[int], model []handle, removed []handle) *seqx.Viol {
+func check(l *xlist.List[int], model []handle, removed []handle, cleared []handle) *seqx.Viol {
+	// "their Value is never touched": also for handles kept across a Clear (their links are the
+	// list's business, their Value is the caller's)
+	for _, h := range cleared {
+		if h.n.Value != h.val {
+			return &seqx.Viol{Sig: "value-touched", Detail: "the Value of a node that was in the list when it was cleared was modified"}
+		}
+	}
 	if l.Len() != len(model) {
 		return &seqx.Viol{Sig: "len", Detail: fmt.Sprintf("Len()=%d, model has %d handles", l.Len(), len(model))}
 	}
@@ -156,7 +163,7 @@ func check(l *xlist.List[int], model []handle, removed []handle) *seqx.Viol {
 
 func (s sys) Run(path []seqx.Op) (res seqx.Result) {
 	var l xlist.List[int]
-	var model, removed []handle
+	var model, removed, cleared []handle
 	val := 100
 	apply := func(o seqx.Op) {
 		val++
@@ -211,8 +218,9 @@ func (s sys) Run(path []seqx.Op) (res seqx.Result) {
 			}
 		case opClear:
 			l.Clear()
+			cleared = append(append(cleared, model...), removed...)
 			model = nil
-			removed = nil // handles of a cleared list are no longer valid
+			removed = nil // handles of a cleared list are no longer valid as arguments
 		}
 	}
 	for i, o := range path {
@@ -227,7 +235,7 @@ func (s sys) Run(path []seqx.Op) (res seqx.Result) {
 		}
 	}
 	res.Checks = 1
-	if v := check(&l, model, removed); v != nil {
+	if v := check(&l, model, removed, cleared); v != nil {
 		last := "initial"
 		if len(path) > 0 {
 			last = opNames[path[len(path)-1].K]
@@ -243,6 +251,97 @@ func (s sys) Run(path []seqx.Op) (res seqx.Result) {
 	}
 	res.Next = enabled(len(model), s.maxLen)
 	return
+}
+
+// scale grows one list to n nodes and checks it against a model of handles at the sizes where an
+// integer of 8 or 16 bits would wrap. The model is two slices (front part reversed, back part), so
+// the pass is linear apart from the check points.
+func scale(n int) *seqx.Viol {
+	var l xlist.List[int]
+	var fp, bp []*xlist.Node[int] // list = reverse(fp) ++ bp
+	size := func() int { return len(fp) + len(bp) }
+	front := func() *xlist.Node[int] {
+		if len(fp) > 0 {
+			return fp[len(fp)-1]
+		}
+		return bp[0]
+	}
+	back := func() *xlist.Node[int] {
+		if len(bp) > 0 {
+			return bp[len(bp)-1]
+		}
+		return fp[0]
+	}
+	checkAt := map[int]bool{255: true, 256: true, 257: true, 65535: true, 65536: true, 65537: true, n: true, 0: true}
+	verify := func(what string) *seqx.Viol {
+		model := make([]*xlist.Node[int], 0, size())
+		for i := len(fp) - 1; i >= 0; i-- {
+			model = append(model, fp[i])
+		}
+		model = append(model, bp...)
+		if l.Len() != len(model) {
+			return &seqx.Viol{Sig: "scale/len", Detail: fmt.Sprintf("%s: Len()=%d with %d nodes in the list", what, l.Len(), len(model))}
+		}
+		i := 0
+		for x := l.Front(); x != nil; x = x.Next() {
+			if i >= len(model) || x != model[i] {
+				return &seqx.Viol{Sig: "scale/forward-walk", Detail: fmt.Sprintf("%s: forward walk differs from the model at position %d of %d", what, i, len(model))}
+			}
+			i++
+		}
+		if i != len(model) {
+			return &seqx.Viol{Sig: "scale/forward-walk", Detail: fmt.Sprintf("%s: forward walk visits %d nodes, model %d", what, i, len(model))}
+		}
+		i = len(model) - 1
+		for x := l.Back(); x != nil; x = x.Prev() {
+			if i < 0 || x != model[i] {
+				return &seqx.Viol{Sig: "scale/backward-walk", Detail: fmt.Sprintf("%s: backward walk differs from the model at position %d of %d", what, i, len(model))}
+			}
+			i--
+		}
+		if i != -1 {
+			return &seqx.Viol{Sig: "scale/backward-walk", Detail: fmt.Sprintf("%s: backward walk stops %d nodes early", what, i+1)}
+		}
+		return nil
+	}
+	var viol *seqx.Viol
+	if p := vx.Catch(func() {
+		for size() < n {
+			k := size()
+			switch {
+			case k == 0 || k%4 == 0:
+				bp = append(bp, l.PushBack(k))
+			case k%4 == 1:
+				fp = append(fp, l.PushFront(k))
+			case k%4 == 2:
+				bp = append(bp, l.InsertAfter(k, back()))
+			default:
+				fp = append(fp, l.InsertBefore(k, front()))
+			}
+			if checkAt[size()] {
+				if viol = verify(fmt.Sprintf("grown to %d nodes", size())); viol != nil {
+					return
+				}
+			}
+		}
+		for size() > 0 {
+			if (size()%2 == 0 && len(fp) > 0) || len(bp) == 0 {
+				l.Remove(fp[len(fp)-1])
+				fp = fp[:len(fp)-1]
+			} else {
+				l.Remove(bp[len(bp)-1])
+				bp = bp[:len(bp)-1]
+			}
+			if checkAt[size()] {
+				if viol = verify(fmt.Sprintf("shrunk to %d nodes", size())); viol != nil {
+					return
+				}
+			}
+		}
+	}); p != nil {
+		return &seqx.Viol{Sig: "scale/panic", Detail: fmt.Sprintf("panic with %d nodes: %v", size(), p)}
+	}
+	return viol
 }
 
 func main() {
@@ -304,6 +403,13 @@ func main() {
 	stC := seqx.Enumerate(sys{maxLen: maxLen}, seeds, seedDepth, seqx.Config{Deadline: run.Deadline})
 	report(stC, maxLen, "all-sequences-from-seeds")
 	run.Set("sequences_from_seeds", map[string]any{"seed_lengths": maxLen, "depth": seedDepth, "sequences": stC.Transitions})
+	// (d) one long list: sizes beyond 2^8 and 2^16 (a narrower length field would wrap), built with
+	// every insertion operation, walked both ways, then taken apart with every removal order
+	if v := scale(70000); v != nil {
+		run.Violate(vx.Violation{Signature: v.Sig, Detail: v.Detail, Replay: map[string]any{"mode": "scale"}})
+	}
+	run.AddCounts(1, 4*70000, 4*70000)
+	run.Set("scale", "one list grown to 70 000 nodes through PushBack/PushFront/InsertAfter/InsertBefore, Len and both walks checked at 255, 256, 257, 65535, 65536, 65537 and 70 000 nodes, then shrunk again with Remove from both ends")
 	run.Set("rule", "every operation x every node/mark handle choice; full two-way walk check after each operation")
 	run.Assume("element values are opaque to the list (parametricity)")
 	run.Finish()
